@@ -54,6 +54,10 @@ func init() {
 var c14Builds = []string{"", "b", "001.x", "z-9"}
 
 // c14Pair checks the order laws on one ordered pair of valid versions.
+// c14StatedOrder: the order in force is the one the statement describes (false while a replacement
+// ComparePreRelease is installed: then "lower" is what Ver.Compare, which consults the hook, says)
+var c14StatedOrder = true
+
 func c14Pair(w *rt.W, a, b sem.Ver) {
 	defer func() {
 		if r := recover(); r != nil {
@@ -105,7 +109,7 @@ func c14Pair(w *rt.W, a, b sem.Ver) {
 	}
 	// "never the lower one" by the order the statement names, not only by the library's own Compare (a Compare that
 	// calls two different versions equal is consistent with itself and with a Latest that returns either)
-	if !(sameCore && ref.ExcludedPair(a.PreRelease, b.PreRelease)) && (l == a || l == b) && a != b {
+	if c14StatedOrder && !(sameCore && ref.ExcludedPair(a.PreRelease, b.PreRelease)) && (l == a || l == b) && a != b {
 		want := 0
 		for _, p := range [][2]uint64{{a.Major, b.Major}, {a.Minor, b.Minor}, {a.Patch, b.Patch}} {
 			if want == 0 && p[0] != p[1] {
@@ -483,16 +487,26 @@ func runC14(c *rt.Ctx) {
 			}
 			return -1
 		}
+		c14StatedOrder = false
 		c.Parallel("custom-compare-prerelease", 0, func(w *rt.W) {
 			pool := []string{"1.0.0-rc9", "1.0.0-rc10", "1.0.0-rc.9", "1.0.0-rc.10", "1.0.0", "1.0.0-a", "1.0.0-b", "1.0.0-ab", "v1.0.0-rc9", "v1.0.0-rc10", "v1.0.0-b", "v1.0.0-a", "1.0.1-a", "1.0.0-a+x", "v1.0.0"}
 			for i := w.Shard; i < len(pool); i += w.NShards {
 				for _, b := range pool {
 					c14Helpers(w, pool[i], b)
 					w.ClassN("helpers-under-custom-compare-prerelease", 1)
+					// the laws under the replacement order: Latest must follow the order Compare follows
+					va, ea := sem.Parse(pool[i])
+					vb, eb := sem.Parse(b)
+					if ea == nil && eb == nil {
+						c14Pair(w, va, vb)
+						w.ClassN("laws-under-custom-compare-prerelease", 1)
+					}
 				}
 			}
 		})
 		sem.ComparePreRelease = old
+		c14StatedOrder = true
+		c.Require("laws-under-custom-compare-prerelease", 200)
 		c.Require("helpers-under-custom-compare-prerelease", 200)
 	}
 	c.Require("helper-error-case", 10000)
